@@ -641,6 +641,19 @@ def run_property(P, tier, seed):
         if bad:
             disagreements.append(i)
 
+    oracle0 = P.get("property_oracle")
+    corr_only = []          # disagreements on which the implementation's own answer still satisfies the property
+    if oracle0:
+        # search the disagreements for an input on which the property itself fails: those are reported first, with
+        # the input as the replay; disagreements the property-level oracle accepts only break the correspondence
+        def _viol(i):
+            try:
+                return any(oracle0(lines[i], v[i]) != "ok" for v in impl_outs.values())
+            except Exception:
+                return True
+        bad_first = [i for i in disagreements if _viol(i)]
+        corr_only = [i for i in disagreements if i not in set(bad_first)]
+        disagreements = bad_first + corr_only
     for i in disagreements[:200]:
         line = lines[i]
         norm_line[0] = line
@@ -693,11 +706,15 @@ def run_property(P, tier, seed):
                                   "satisfies the property (property-level oracle): correspondence with the model of "
                                   "%s is broken" % P["prop_file"])
                 rec["broken"] = "correspondence model/implementation for " + P["prop_file"]
+                if any(v[0] != "correspondence" for v in violations):
+                    # a failing input was already found and reported; the remaining correspondence-only
+                    # disagreements are counted in the evidence notes
+                    notes.append("further disagreement accepted by the property-level oracle: case %d" % i)
+                    break
                 path = write_replay(pid, rec)
                 violations.append(("correspondence", path, " no-failing-input-found"))
-                if len(violations) >= 5:
-                    break
-                continue
+                break      # one report of the broken correspondence is enough
+
         if impl_vs_spec:
             rec["verdict"] = "implementation differs from the specification on this input"
             path = write_replay(pid, rec)
